@@ -142,6 +142,21 @@ func FnPlainPush(ctx erpc.PushCtx, a *RArg) *erpc.Status {
 }
 func GetPush(ctx erpc.PushCtx, a *RArg) *erpc.Status { hit("GetPush"); return nil }
 
+// Acct and PSeq: handler methods that are valid handlers and merely share their identifier with
+// a method of the embedded context (which they shadow): they are handlers like any other.
+type Acct struct{ erpc.CallCtx }
+
+func (c *Acct) Login(a *RArg) (string, *erpc.Status)   { hit("Acct.Login"); return "Acct.Login", nil }
+func (c *Acct) Session(a *RArg) (string, *erpc.Status) { hit("Acct.Session"); return "Acct.Session", nil }
+func (c *Acct) Swap(a *RArg) (string, *erpc.Status)    { hit("Acct.Swap"); return "Acct.Swap", nil }
+func (c *Acct) IP(a *RArg) (string, *erpc.Status)      { hit("Acct.IP"); return "Acct.IP", nil }
+
+type PSeq struct{ erpc.PushCtx }
+
+func (p *PSeq) Other(a *RArg) *erpc.Status { hit("PSeq.Other"); return nil }
+func (p *PSeq) Seq(a *RArg) *erpc.Status   { hit("PSeq.Seq"); return nil }
+func (p *PSeq) Peer(a *RArg) *erpc.Status  { hit("PSeq.Peer"); return nil }
+
 type libItem struct {
 	id      string
 	kind    string // callstruct | callfunc | pushstruct | pushfunc
@@ -159,6 +174,8 @@ var c10Lib = []libItem{
 	{"ABC_XYZ", "callstruct", func() interface{} { return new(ABC_XYZ) }, "ABC_XYZ", []string{"Do", "Do2"}},
 	{"Home", "callstruct", func() interface{} { return new(Home) }, "Home", []string{"Index", "Index_", "V1_Get"}},
 	{"Dup", "callstruct", func() interface{} { return new(Dup) }, "Dup", []string{"GetItem", "Get__Item", "Other"}},
+	{"Acct", "callstruct", func() interface{} { return new(Acct) }, "Acct", []string{"IP", "Login", "Session", "Swap"}},
+	{"PSeq", "pushstruct", func() interface{} { return new(PSeq) }, "PSeq", []string{"Other", "Peer", "Seq"}},
 	{"PDup", "pushstruct", func() interface{} { return new(PDup) }, "PDup", []string{"NoteAll", "Note__All"}},
 	{"P1", "pushstruct", func() interface{} { return new(P1) }, "P1", []string{"Note", "NoteAll"}},
 	{"PAaBb", "pushstruct", func() interface{} { return new(PAaBb) }, "PAaBb", []string{"Get"}},
